@@ -80,6 +80,19 @@ def gen_tree(rng, depth, maxdepth):
             c.add_component(gen_tree(rng, depth + 1, maxdepth))
     if rng.random() < 0.12:
         c.add_component(tz_subtree(rng))
+    if c.subcomponents and depth + 2 <= maxdepth and rng.random() < 0.3:
+        # a sibling with exactly the properties of an existing child (a recurring event and its override, repeated
+        # wrappers) but children of its own: such siblings can be told apart only through their subtrees
+        src = rng.choice(c.subcomponents)
+        twin = type(src)()
+        twin.name = src.name
+        for k in src.keys():
+            twin[k] = copy.deepcopy(src[k])
+        for _ in range(rng.choice((1, 2, 2, 3))):
+            twin.add_component(gen_tree(rng, depth + 2, maxdepth))
+        if not src.subcomponents:
+            src.add_component(gen_tree(rng, depth + 2, maxdepth))
+        c.add_component(twin)
     return c
 
 
@@ -183,6 +196,9 @@ def perturb(c, rng):
     return None
 
 
+KEY_OF = {}      # value id -> the property name it stands under (values are only ever compared under the same name)
+
+
 def ids_obs(c, table):
     """observation with every value's text slot replaced by a fresh id; table: id -> value object"""
     props = []
@@ -193,6 +209,7 @@ def ids_obs(c, table):
         for v in vs:
             i = "v%d" % len(table)
             table[i] = v
+            KEY_OF[i] = k
             row.append([type(v).__name__, [], i])
         props.append([k, 1 if isinstance(e, list) else 0, row])
     return [c.name or "", props, [ids_obs(s, table) for s in c.subcomponents], []]
@@ -272,7 +289,7 @@ def run(ctx, res):
     M = ctx.model
     known = ctx.known
     rng = common.rng_for(ctx.seed, "c20")
-    ntrees = 1500 if ctx.big else 220 * (1 + 3 * ctx.level)
+    ntrees = 1500 if ctx.big else 200 * (1 + 3 * ctx.level)
     res.rule = ("API-built trees (10 component kinds incl. unknown and lower-case names, depth <= %d, 21 property/value "
                 "shapes incl. repeated and unknown names); per tree: walk(), walk(name) for every name in 3 spellings, "
                 "walk(select), accessors; equality against itself, deep copy, pickle copy, serialise-and-parse copy, "
@@ -338,6 +355,7 @@ def run(ctx, res):
             ser_same = T.impl_ser(t) == T.impl_ser(u)
             # model
             table = {}
+            KEY_OF.clear()
             oa, ob = ids_obs(t, table), ids_obs(u, table)
             ia = [i for i in table if table[i] is not None]
             pairs = []
@@ -345,6 +363,8 @@ def run(ctx, res):
             idb = [v[2] for c in _all(ob) for _, _, vs in c[1] for v in vs]
             for x in ida:
                 for y in idb:
+                    if KEY_OF[x] != KEY_OF[y]:
+                        continue            # the mapping comparison pairs values name by name
                     r = safe_eq(table[x], table[y])
                     pairs.append([x, y, r if isinstance(r, int) else 0])
                     r = safe_eq(table[y], table[x])
